@@ -37,6 +37,19 @@ type RawCase struct {
 	Body      []byte `json:"body"`      // request body, or the raw query string for get
 	// Twice: the server caches parsed documents and the request is sent twice
 	Twice bool `json:"twice,omitempty"`
+	// Primer: a well-formed request with variables that the same server answers first (JSON body);
+	// MissingVar: the body declares a required variable and does not provide it - it must be
+	// answered with errors and run nothing, whatever the server answered before
+	Primer     []byte `json:"primer,omitempty"`
+	MissingVar bool   `json:"missing_var,omitempty"`
+}
+
+var missingVarBodies = []string{
+	`{"query":"query($n:Int!){ ok(n:$n) }"}`,
+	`{"query":"query($n:Int!){ ok(n:$n) }","variables":{}}`,
+	`{"query":"query($n:Int!){ ok(n:$n) }","variables":{"m":3}}`,
+	`{"query":"query($n:Int!,$s:String!){ ok(n:$n,s:$s) }","variables":{"s":"x"}}`,
+	`{"query":"query($n:Int!){ ok(n:$n) }","variables":null}`,
 }
 
 // documents that parse but are not valid against the schema (each for another validation rule)
@@ -160,10 +173,29 @@ func checkRaw(c RawCase) *vfrun.Failure {
 		req = httptest.NewRequest("POST", "/graphql", bytes.NewReader(c.Body))
 		req.Header.Set("Content-Type", "application/json")
 	}
+	if len(c.Primer) > 0 {
+		s.U.SetExec(univ.NewExec(plan.New(5)))
+		pr := req.Clone(req.Context())
+		pr.Body = io.NopCloser(bytes.NewReader(c.Primer))
+		pr.ContentLength = int64(len(c.Primer))
+		_, _ = serve(h, pr)
+	}
 	e := univ.NewExec(plan.New(5))
 	s.U.SetExec(e)
 	res, escaped := serve(h, req)
 	what := fmt.Sprintf("%s %q", c.Transport, c.Body)
+	if len(c.Primer) > 0 {
+		what += fmt.Sprintf(" (after %q)", c.Primer)
+	}
+	if c.MissingVar && escaped == nil {
+		if n := len(e.Keys("R")); n > 0 {
+			return vfrun.Failf("malformed.missing-variable-executed", "%s: the body does not provide the required variable it declares, yet %d resolver call(s) ran; answer %d %q", what, n, res.Status, res.Body)
+		}
+		if !bytes.Contains(res.Body, []byte(`"errors"`)) {
+			return vfrun.Failf("malformed.missing-variable-executed", "%s: the body does not provide the required variable it declares; answer %d %q has no errors", what, res.Status, res.Body)
+		}
+		vfrun.Label("raw:missing-required-variable")
+	}
 	if c.Twice && escaped == nil && recovers.Load() == 0 {
 		// the same bytes again, on a server that caches parsed documents (as NewDefaultServer does):
 		// what was refused the first time must not be let through - or crash - the second time
@@ -231,6 +263,13 @@ func TestRaw(t *testing.T) {
 				c.Body = genJSONish(t)
 			}
 			c.Twice = rapid.Bool().Draw(t, "twice")
+			if (c.Transport == "post" || c.Transport == "sse" || c.Transport == "multipartmixed") && rapid.IntRange(0, 5).Draw(t, "missingvar") == 0 {
+				c.Body = []byte(rapid.SampledFrom(missingVarBodies).Draw(t, "mvbody"))
+				c.MissingVar = true
+				if rapid.IntRange(0, 3).Draw(t, "primer") != 0 {
+					c.Primer = []byte(`{"query":"query($n:Int!,$s:String){ ok(n:$n,s:$s) }","variables":{"n":7,"s":"p"}}`)
+				}
+			}
 			return c
 		}, Check: checkRaw}, vfrun.N(15000, 1500000))
 }
